@@ -46,6 +46,7 @@ TLose       == IsEv("Lose") /\ Lose /\ E
 TReopen     == IsEv("Reopen") /\ Reopen /\ E
 TAnnounceTM == IsEv("AnnounceTM") /\ AnnounceTM(Trace[l].s) /\ E
 TAnnounceRM == IsEv("AnnounceRM") /\ AnnounceRM(Trace[l].s, Trace[l].rid) /\ E
+TAnnounceFailed == IsEv("AnnounceFailed") /\ AnnounceFailed(Trace[l].s, Trace[l].rid) /\ E
 TSettle     == IsEv("Settle") /\ Settle /\ E
 TBeginAfter == IsEv("BeginAfter") /\ BeginAfter(Trace[l].ok) /\ E
 TPhase2     == IsEv("Phase2") /\ Phase2(Trace[l].rid, Trace[l].reached, Trace[l].answered) /\ E
@@ -53,7 +54,7 @@ TPhase2     == IsEv("Phase2") /\ Phase2(Trace[l].rid, Trace[l].reached, Trace[l]
 TEnd == IsEv("End") /\ UNCHANGED vars
 
 TraceNext == TOpen \/ TRegister \/ TClose \/ TRelease \/ TSelect
-             \/ TWork \/ TLose \/ TReopen \/ TAnnounceTM \/ TAnnounceRM \/ TSettle \/ TBeginAfter \/ TPhase2
+             \/ TWork \/ TLose \/ TReopen \/ TAnnounceTM \/ TAnnounceRM \/ TAnnounceFailed \/ TSettle \/ TBeginAfter \/ TPhase2
              \/ TEnd
 TraceSpec == TraceInit /\ [][TraceNext]_tvars
 
